@@ -437,12 +437,19 @@ func oracleGate(c *DriveCtx, res *Result) {
 			if t.Err == nil && st == 201 {
 				loc := t.Rec.HdrAtWrite.Get("Location")
 				o := observeOutbox(res, t)
-				first := ""
-				if len(o.newIDs) > 0 {
-					first = o.newIDs[0].Res
+				// the new activity: the stored value of an activity type with an id issued in this request
+				want := ""
+				for _, e := range o.creates {
+					if m, ok := normalise(e.Arg).(map[string]interface{}); ok && isActivityType(typeOf(m)) {
+						for _, n := range o.newIDs {
+							if n.Res == e.ID {
+								want = e.ID
+							}
+						}
+					}
 				}
-				if loc == "" || loc != first {
-					s.violate("C10", "location", site, fmt.Sprintf("201 with Location %q; the new activity's id is %q", loc, first))
+				if loc == "" || loc != want {
+					s.violate("C10", "location", site, fmt.Sprintf("201 with Location %q; the new activity's id is %q", loc, want))
 				}
 			}
 		case "getInbox", "getOutbox":
